@@ -575,6 +575,8 @@ Eval(ln, w) ==
       [] ln.op = "GQuery" -> EvGQuery(ln, w)
       [] ln.op = "AddListener" -> EvAddListener(ln, w)
       [] ln.op = "ResGet" -> EvResGet(ln, w)
+      [] ln.op = "ResLazy" -> Res(w, << Chk("C20", "first-lookup-of-a-resource-type-works-in-any-lock-state",
+                                          ~ln.res.panic /\ ln.res.ret = -1) >>, {})
       [] ln.op = "Dump" -> EvDump(ln, w)
       [] ln.op = "Load" -> EvLoad(ln, w)
       [] ln.op = "NewEntity" -> EvNewEntity(ln, w)
@@ -643,10 +645,13 @@ RejectedChecks(ln, w, w2) ==
 
 (* C18: the ghost after a generic call is the ghost after the ID-based call it stands for, so the observed world *)
 (* after a generic call has to be that world.                                                                  *)
-GenericStateChecks(ln, w2) ==
+GenericStateChecks(ln, w2, opChecks) ==
     IF "gen" \in DOMAIN ln /\ ln.gen /\ ~ln.res.panic
     THEN LET cs == ObsChecks(w2, ln.obs) IN
-         << Chk("C18", "generic-call-has-the-effect-of-its-equivalent", \A i \in DOMAIN cs : cs[i][3]) >>
+         << Chk("C18", "generic-call-has-the-effect-of-its-equivalent", \A i \in DOMAIN cs : cs[i][3]),
+            (* ... and returns what its equivalent returns: every check of the operation itself (counts, panels,   *)
+            (* results of reads) holds, whichever property it is listed under                                      *)
+            Chk("C18", "generic-call-returns-what-its-equivalent-returns", \A i \in DOMAIN opChecks : opChecks[i][3]) >>
     ELSE <<>>
 
 AllChecks(ln, w, r) ==
@@ -657,7 +662,7 @@ AllChecks(ln, w, r) ==
              \o RawChecks(ln)
              \o BatchStateChecks(ln, r.g)
              \o RejectedChecks(ln, w, r.g)
-             \o GenericStateChecks(ln, r.g)
+             \o GenericStateChecks(ln, r.g, r.c)
 
 ---------------------------------------------------------------------------
 (* Layer-2 conformance: the hidden state logged by the hook (World.VerifShape) evolves exactly as     *)
